@@ -282,8 +282,18 @@ def build_case(chk, rng, it):
     if manufactured:
         qdeg = rng.choice([2 * d, 2 * d + 1, 2 * d + 3])
     coefs = rand_coefs(rng, manufactured)
+    big_n = it % 10 == 9
+    if big_n:
+        # a poloidal size for which fftfreq(n, 1/n) is not exactly integer-valued (1.0000000000000002 for m = 1): the boundary
+        # choices per mode are given as integers (finding F20)
+        N, nz, d, ncells, manufactured = 49, 1, min(d, 2), min(ncells, 2), False
+        nr = ncells + d
+        qdeg = 2 * d
+        coefs = rand_coefs(rng, False)
     mv = mvals(N)
     style = rng.choice(['none', 'all_l', 'all_u', 'qn', 'random', 'random', 'both', 'asym', 'asym'])
+    if big_n:
+        style = rng.choice(['asym', 'random'])
     if style == 'asym' and N < 3:
         N = rng.randint(3, 7)
         mv = mvals(N)
